@@ -141,7 +141,11 @@ def load_known():
 
 
 def bucket_matches(entry_bucket, bucket):
-    """entry bucket is a list; '*' matches any element; must match the full length"""
+    """entry bucket is a list; '*' matches any element; a trailing '**' matches any suffix;
+    otherwise the full length must match"""
+    if entry_bucket and entry_bucket[-1] == "**":
+        n = len(entry_bucket) - 1
+        return len(bucket) >= n and all(e == "*" or str(e) == str(b) for e, b in zip(entry_bucket[:n], bucket[:n]))
     if len(entry_bucket) != len(bucket):
         return False
     return all(e == "*" or str(e) == str(b) for e, b in zip(entry_bucket, bucket))
